@@ -1852,9 +1852,7 @@ impl SctpInner {
 
         for dc in channels_to_process {
             if dc.negotiated {
-                dc.state
-                    .store(DataChannelState::Open as usize, Ordering::SeqCst);
-                dc.send_event(DataChannelEvent::Open);
+                Self::open_channel_once(&dc);
             } else {
                 let state = dc.state.load(Ordering::SeqCst);
                 if state == DataChannelState::Connecting as usize
@@ -2270,9 +2268,7 @@ impl SctpInner {
 
         for dc in channels_to_process {
             if dc.negotiated {
-                dc.state
-                    .store(DataChannelState::Open as usize, Ordering::SeqCst);
-                dc.send_event(DataChannelEvent::Open);
+                Self::open_channel_once(&dc);
             } else {
                 let state = dc.state.load(Ordering::SeqCst);
                 if state == DataChannelState::Connecting as usize
@@ -2786,6 +2782,12 @@ impl SctpInner {
         };
 
         if let Some(dc) = dc {
+            // Data on a pre-negotiated channel proves the peer regards the
+            // association as established (our COOKIE ACK may have been lost):
+            // announce Open before the first message rather than after it.
+            if dc.negotiated {
+                Self::open_channel_once(&dc);
+            }
             let b_bit = (flags & 0x02) != 0;
             let e_bit = (flags & 0x01) != 0;
             let unordered = (flags & 0x04) != 0;
@@ -2920,6 +2922,22 @@ impl SctpInner {
             }
         }
         Ok(())
+    }
+
+    /// Move a channel from Connecting to Open and announce it, exactly once.
+    fn open_channel_once(dc: &DataChannel) {
+        if dc
+            .state
+            .compare_exchange(
+                DataChannelState::Connecting as usize,
+                DataChannelState::Open as usize,
+                Ordering::SeqCst,
+                Ordering::SeqCst,
+            )
+            .is_ok()
+        {
+            dc.send_event(DataChannelEvent::Open);
+        }
     }
 
     /// Build Gap Ack Blocks from buffered out-of-order packets so the peer knows
